@@ -8,4 +8,7 @@ package operation
 //@   requires forall q int :: 0 <= q && q < len(o) ==> o[q] != nil
 //@   loop 1
 //@     invariant len(ops) == len(o) && (forall q int :: 0 <= q && q < len(o) ==> o[q] != nil)
+//@     invariant forall q int :: 0 <= q && q < _k ==> ops[q] != nil && ops[q].UniqueSuffix == o[q].UniqueSuffix && ops[q].Type == o[q].Type && ops[q].OperationRequest == o[q].OperationRequest && ops[q].Namespace == o[q].Namespace
 //@   ensures len(result) == len(o)
+//   same operations, same order (FIFO is preserved when a batch leaves the queue)
+//@   ensures forall q int :: 0 <= q && q < len(o) ==> result[q] != nil && result[q].UniqueSuffix == o[q].UniqueSuffix && result[q].Type == o[q].Type && result[q].OperationRequest == o[q].OperationRequest && result[q].Namespace == o[q].Namespace
